@@ -508,3 +508,18 @@ package pbft
 //@   atcall readReplayMessage assert [records-replayed-in-replay-mode-in-log-order] cs.replayMode && calls(readReplayMessage) == calls(ReadLine) - 1
 //@   ensures [replay-mode-bracket-closed] cs.replayMode == false
 //@   loop 0 invariant cs.replayMode && calls(readReplayMessage) == calls(ReadLine) && cs != nil
+
+// restart: the last commit is rebuilt from the stored seen-commit of the last block, as a precommit vote set of that block's
+// height and commit round over the validator set that signed it (the state's LAST validators, not the current ones)
+//@ ghost gSeenCommit Ref
+//@ func (*ConsensusState).reconstructLastCommit
+//@   props C07
+//@   requires cs != nil && state != nil
+//@   invariant-assumed wfValSet(as(state, *sm.State).LastValidators) && cs.blockStore != nil
+//@   nosafety
+//@   atcall LoadSeenCommit set gSeenCommit = result
+//@   atcall LoadSeenCommit assert [seen-commit-of-the-last-block] arg_height == state.LastBlockHeight
+//@   atcall NewVoteSet assert [rebuilt-over-the-validators-that-signed-the-last-block] arg_valSet == state.LastValidators && arg_height == state.LastBlockHeight && arg_type_ == 2 && calls(LoadSeenCommit) == 1
+//@   atcall AddVote assert [only-stored-precommits-are-replayed-into-it] calls(NewVoteSet) == 1
+//@   onwrite RoundState.LastCommit assert [installed-only-with-a-two-thirds-majority] calls(HasTwoThirdsMajority) == 1 && calls(NewVoteSet) == 1
+//@   loop 0 invariant calls(NewVoteSet) == 1 && calls(LoadSeenCommit) == 1 && calls(HasTwoThirdsMajority) == 0
